@@ -111,6 +111,10 @@ def posmc_spaces(prop, tier):
         four = ["KPkp", "KRkp", "KPPk", "Kkpp"] if q else MEN4
         for s in four:
             sig(s, 16)
+        if not q:
+            # five-men families on a five-file board: pawn + heavy pieces, minor pieces + pawn, pawn races
+            for s in ["KRPkr;files=5", "KQPkq;files=5", "KBNkp;files=5", "KPPkp;files=5", "KRkpp;files=5", "KNPkb;files=5"]:
+                sig(s, 32)
     elif prop in ("C02", "C15", "C04", "C16"):
         for s in MEN3:
             sig(s, 2)
@@ -140,6 +144,10 @@ def posmc_spaces(prop, tier):
         for n in all_seed_names:
             big = n in ("moves218", "ten_queens", "ten_knights", "san_queens", "san_knights", "kiwipete", "perft4", "perft4m", "perft5", "perft6", "middlegame1", "middlegame2", "pins", "double_check2", "prop_c17")
             d = (2 if big else 3) if q else (3 if big else 4)
+            tiny = n in ("castle_check", "castle_mate", "promo_check", "ep_hpin", "ep_hpin_w", "ep_dpin", "ep_dpin_b", "ep_vpin", "ep_check", "ep_both", "ep_push",
+                         "ep_discover", "double_check", "mate_nets", "stalemates")
+            if not q and tiny:
+                d = 5
             jobs.append(["tree|%s|%d" % (S[n], d)])
     elif prop == "C07":
         for s in MEN3:
